@@ -35,7 +35,8 @@ RULE = ("cases: random scripts over acquire/release/sleep/wait with 1..3 locks i
         "blocked on another lock, directed 'urgent task arrives behind a queued holder' shapes, also with 17..25 waiters on one lock of the chain, a user priority() that raises once inside acquire; all arrival "
         "orders through random sleeps; both loops.  Non-trivial = some task inherited a priority (directly or "
         "through a chain), or a scheduling decision was taken on the priority loop while a runnable holder "
-        "blocked a waiter.  distinct = hash of the canonical case")
+        "blocked a waiter.  distinct = hash of the canonical case.  The corpus and a fixed grid of directed cases (a few "
+        "instances per directed generator kind, private generator with a constant seed) run first on every run")
 
 KINDS = {
     "eff-raises": "effective_priority() returns a value (acyclic wait-for graph)",
@@ -85,7 +86,7 @@ def gen(rng, n):
 
 def run(ctx):
     rng = ctx.rng
-    S.explore(ctx, S.corpus_cases(PROP), KINDS, THEOREM, sched_oracle=True, label="corpus: ",
+    S.explore(ctx, S.corpus_cases(PROP) + S.grid_cases(PROP), KINDS, THEOREM, sched_oracle=True, label="corpus/grid: ",
               nontrivial=NONTRIVIAL)
     cases = gen(rng, 30000 if ctx.thorough() else 2500)
     S.explore(ctx, cases, KINDS, THEOREM, sched_oracle=True, nontrivial=NONTRIVIAL)
